@@ -186,3 +186,18 @@ open CC CC.Props.NonVacuity
   | .ok rs => rs.all (fun r => ((run (base ++ [.keygen (pol "D::A"), .rekey (pol "S::T")])).msk.secrets.getLatest r).isSome) && !rs.isEmpty
   | .error _ => false)
 end CC.Props.NonVacuityRekey
+
+/-! C16 `replaced_value_never_returns`: a published value, then a rekey after which the newest
+secret of that right is another one (the hypothesis `HeadNe`, evaluated) -/
+namespace CC.Props.NonVacuityReplaced
+open CC CC.Props.NonVacuity
+def w0 := run base
+def firstPub : Option (Right × Sk) := w0.msk.mpk.keys.head?
+#guard firstPub.isSome
+#guard (match firstPub with
+  | some (r0, pk0) =>
+    (match ((run (base ++ [.rekey .broadcast])).msk.secrets.lookup r0).bind List.head? with
+     | some h0 => h0.2.tok != pk0.tok
+     | none => false)
+  | none => false)
+end CC.Props.NonVacuityReplaced
